@@ -10,4 +10,17 @@ PROPS = {
              "params": {"quick": {"depth": 0, "width": 1, "strlen": 1}, "thorough": {"depth": 1, "width": 1, "strlen": 1}}},
         ],
     },
+    "C13": {
+        "technique": "bounded symbolic execution of the registered core builtins (binder + reflect model in the path) vs an abstract sequence/map/set model written from README and step files; lazy symbolic arguments; SMT (z3) decides every path class",
+        "outside": "JSON/base64/marshal builtins, arithmetic, update-in, lisp closures as function arguments (Go function values identity/fail/count/list are used), strings longer than the bound, collections wider than the bound",
+        "assumptions": ["models answer 'unspecified' where README/step files/guide are silent (listed in harness/c13/c13.go)"],
+        "runs": [
+            {"pkg": "./c13", "harness": "Harness_builtin", "setup": "SetupSeeds",
+             "params": {"quick": {"depth": 1, "width": 1, "strlen": 1, "maxargc": 3}, "thorough": {"depth": 1, "width": 2, "strlen": 1, "maxargc": 3}},
+             "wall": {"thorough": "40m"}},
+            {"pkg": "./c13", "harness": "Harness_seeded", "setup": "SetupSeeds", "params": {"quick": {}, "thorough": {}}},
+            {"pkg": "./c13", "harness": "Harness_compose", "setup": "SetupSeeds",
+             "params": {"quick": {"depth": 0, "width": 1}, "thorough": {"depth": 1, "width": 1}}, "wall": {"thorough": "40m"}},
+        ],
+    },
 }
